@@ -98,7 +98,28 @@ def drain(rng, n):
     return ["recv"] * n
 
 
+def gen_burst(rng):
+    """Many small messages with an idle reader until the carrier's flow-control window (256 KiB) is exhausted in the
+    middle of a message, then the reader drains: short writes of small buffers, window exhaustion at arbitrary offsets."""
+    size = rng.choice([1000, 1000, 997, 1023, 1024, 1025, 500, 4000])
+    ops = [f"codec varint {rng.choice([70000, 4096, size])}"]
+    n = (256 * KIB) // (size + 2) + rng.randrange(-3, 25)
+    api = rng.choice(["framed", "framed", "sink"])
+    for i in range(n):
+        ops.append(f"send {api} {size + rng.choice([0, 0, 0, -1, 1]) if size > 1 else size} {1 + i % 250}")
+        if api == "sink" and rng.random() < 0.2:
+            ops.append("flush")
+    for _ in range(n + 10):
+        ops.append("recv")
+        if rng.random() < 0.15:
+            ops.append("wait" if api == "framed" else "flush")
+    ops += ["wait", "flush", "writer_stop"] + ["recv"] * 12
+    return ops
+
+
 def gen_case(rng):
+    if rng.random() < 0.04:
+        return gen_burst(rng)
     if rng.random() < 0.45:
         kind, arg = "identity", rng.choice(IDENT)
     else:
